@@ -504,7 +504,7 @@ ensures grows(*old(context), *final(context)),
         ('let def_name_symbol_id = context.new_binding(', 'before', A_('same_scopes', 'subroutine-name-bound-in-enclosing-scope-after-body')),
         # ---- C13: declarations outside the global scope and a non-duration delay are reported, and nothing else is
         ('            let name_str = if let Some(name_str) = q_decl.name() {', 'before', 'proof { assert(context.errs() == old(context).errs() + cond1(!old(context).global(), SemanticErrorKind::NotInGlobalScopeError)); }     //@C13:qubit-declaration-outside-global-scope'),
-        ('            let name_node = gate.name().unwrap();\n            // Here are three ways', 'before', 'proof { assert(context.errs() == old(context).errs() + cond1(!old(context).global(), SemanticErrorKind::NotInGlobalScopeError)); }     //@C13:gate-definition-outside-global-scope'),
+        ('            let name_node = gate.name().unwrap();\n', 'before', 'proof { assert(context.errs() == old(context).errs() + cond1(!old(context).global(), SemanticErrorKind::NotInGlobalScopeError)); }     //@C13:gate-definition-outside-global-scope'),
         ('let params = bind_typed_parameter_list(', 'before', 'proof { assert(context.errs() == old(context).errs() + cond1(!old(context).global(), SemanticErrorKind::NotInGlobalScopeError)); }     //@C13:subroutine-definition-outside-global-scope'),
         ('            let duration =\n                expr_to_asg_texpr(delay_stmt.designator().unwrap().expr(), context).unwrap();', 'after', 'let ghost midd = *context;'),
         ('            Some(asg::Stmt::Delay(asg::DelayStmt::new(', 'before', 'proof { assert(context.errs() == midd.errs() + cond1(!(duration.ty is Duration), SemanticErrorKind::IncompatibleTypesError)); }     //@C13:non-duration-delay-reported'),
@@ -643,8 +643,7 @@ ensures
     zov.setdefault('classical_declaration_statement_to_asg_stmt', {})['ghost'] = [
         # C08: a conversion that lowers the kind (float -> int, complex -> real, anything to or from bit / bool / duration /
         # angle of another kind) is diagnosed on every path: never stored silently, not even behind a cast
-        ('let initializer = expr_to_asg_texpr(type_decl.expr(), context);', 'after', 'let ghost sc_b = context.scopes(); proof { assert(sc_b == old(context).scopes()); }'),
-        ('context.new_binding(name_str.as_ref(), &lhs_type, type_decl);', 'after', 'proof { if symbol_id is Ok { assert(context.scopes().last().contains_key(name_str@)); assert(!sc_b.last().contains_key(name_str@)); assert(context.scopes() != sc_b); } else { assert(context.scopes() == sc_b); } }'),
+        ('context.new_binding(name_str.as_ref(), &lhs_type, type_decl);', 'after', RM_('symbol_id', 'name_str@')),
         ('        let init_type = initializer.get_type();', 'after', 'let ghost it0 = initializer.ty;'),
         ('            return asg::DeclareClassical::new(symbol_id, Some(initializer)).to_stmt();', 'before', KL_),
         # (uint <- integer literal is decided by the sign alone; that an integer literal expression is typed int is not an invariant of TExpr)
